@@ -54,7 +54,7 @@ def run(tier, seed):
             chk.violation({"helper": "division_connected_variable_groups_with_borders", "route": "z3",
                            "kind": job["obj"]["kind"], "sizekind": job["sizekind"], "direction": d},
                           f"..._with_borders {d} a border pattern on which the definition says {mm['expected']}",
-                          {"family": "borders", "obj": job["obj"], "sizekind": job["sizekind"], "sizes": job["sizes"],
+                          {"family": "borders", "obj": job["obj"], "id": job["id"], "flip": job.get("flip", 0), "sizekind": job["sizekind"], "sizes": job["sizes"],
                            "form": job["form"], "pattern": mm["pattern"], "is_border": GR.bits_of(mm["pattern"], m),
                            "expected": mm["expected"], "observed": mm["observed"]})
     emitted = GC.pmap(GR.emit_borders, ejobs)
